@@ -28,7 +28,13 @@ LEVEL_TEXT = (
     "directives on directive definitions under the flag, and the type-system extensions (extend schema / scalar / type / "
     "interface / union / enum / input) - including the printer's `query` keyword before a shorthand query that follows "
     "a definition or extension without a block. For the type entry point also with no well-formedness hypothesis "
-    "(parse_wf_type: every tree parse_type returns is a typed tree). Not yet: arguments on fragment spreads and "
+    "(parse_wf_type: every tree parse_type returns is a typed tree), and for the value / const-value entry points with "
+    "no well-formedness hypothesis on the tree for every source text without surrogate code points (parse_wf_value, "
+    "roundtrip_value_parsed: inversion of the lexer for NAME, INT / FLOAT, STRING and BLOCK_STRING tokens; without the "
+    "hypothesis on the text, parse_wf_value_surrogates: the tree is a typed tree up to string values holding surrogates "
+    "copied verbatim from the text). The converse for documents is proved for its first two layers (arguments, "
+    "directives, selection sets, variable definitions, operation and fragment definitions: "
+    "parse_wf_selection_set_partial, parse_wf_executable_definition_partial). Not yet: arguments on fragment spreads and "
     "`extend directive` (both behind experimental flags). "
     "The full document statement (roundtrip_full) is evaluated directly on the implementation for every generated "
     "source and programmatic tree."
@@ -38,9 +44,11 @@ LEVEL_NOTE = (
     "(tied to the code by byte-for-byte correspondence on every enumerated string and generated tree of the run), the "
     "shared lexer and parser models (Gql/Text/Lexer.lean, Gql/Syntax/Parser.lean; tied by C01/C09's correspondence); the "
     "harness. Not proved: round trip for the remaining document node kinds (arguments on fragment spreads, `extend "
-    "directive`) and, for values and documents, the converse 'every parsed tree is one of the typed well-formed trees' (needs the inversion of the "
-    "lexer; a string value copied from a source that holds a surrogate code point verbatim is outside the typed trees) - "
-    "both covered by the implementation-side round-trip oracle, not by a theorem."
+    "directive`) and, for documents beyond operation / fragment definitions (type-system definitions, extensions, the "
+    "keyword dispatch of parse_definition), the converse 'every parsed tree is one of the typed well-formed trees'; for "
+    "values the converse is proved for source texts without surrogate code points (a string value copied from a source "
+    "that holds a surrogate pair verbatim is outside the typed trees; corpus/C08/verbatim_surrogate_pair.json) - "
+    "all covered by the implementation-side round-trip oracle, not by a theorem."
 )
 TECHNIQUE = "Lean 4 proof about executable models + T1 table + differential correspondence + round-trip oracle"
 TRUSTED = [
